@@ -6,6 +6,84 @@ import VotelibModel.WrapperLaws
 namespace VL.C14
 open VL
 
+/-! ### decidable equality of nested values (for the concrete witnesses) -/
+
+mutual
+def V.beq : V → V → Bool
+  | .num a, .num b => a == b
+  | .cand a, .cand b => a == b
+  | .tie a, .tie b => a == b
+  | .none, .none => true
+  | .list a, .list b => V.beqList a b
+  | .dict a, .dict b => V.beqKvs a b
+  | _, _ => false
+def V.beqList : List V → List V → Bool
+  | [], [] => true
+  | x :: xs, y :: ys => V.beq x y && V.beqList xs ys
+  | _, _ => false
+def V.beqKvs : List (Key × V) → List (Key × V) → Bool
+  | [], [] => true
+  | (k, x) :: xs, (l, y) :: ys => k == l && V.beq x y && V.beqKvs xs ys
+  | _, _ => false
+end
+
+mutual
+theorem V.beq_eq : ∀ (a b : V), V.beq a b = true → a = b
+  | .num a, .num b, h => by simp [V.beq] at h; simp [h]
+  | .cand a, .cand b, h => by simp [V.beq] at h; simp [h]
+  | .tie a, .tie b, h => by simp [V.beq] at h; simp [h]
+  | .none, .none, _ => rfl
+  | .list a, .list b, h => by simp [V.beq] at h; simp [V.beqList_eq a b h]
+  | .dict a, .dict b, h => by simp [V.beq] at h; simp [V.beqKvs_eq a b h]
+  | .num _, .cand _, h | .num _, .tie _, h | .num _, .none, h | .num _, .list _, h | .num _, .dict _, h => by simp [V.beq] at h
+  | .cand _, .num _, h | .cand _, .tie _, h | .cand _, .none, h | .cand _, .list _, h | .cand _, .dict _, h => by simp [V.beq] at h
+  | .tie _, .num _, h | .tie _, .cand _, h | .tie _, .none, h | .tie _, .list _, h | .tie _, .dict _, h => by simp [V.beq] at h
+  | .none, .num _, h | .none, .cand _, h | .none, .tie _, h | .none, .list _, h | .none, .dict _, h => by simp [V.beq] at h
+  | .list _, .num _, h | .list _, .cand _, h | .list _, .tie _, h | .list _, .none, h | .list _, .dict _, h => by simp [V.beq] at h
+  | .dict _, .num _, h | .dict _, .cand _, h | .dict _, .tie _, h | .dict _, .none, h | .dict _, .list _, h => by simp [V.beq] at h
+theorem V.beqList_eq : ∀ (a b : List V), V.beqList a b = true → a = b
+  | [], [], _ => rfl
+  | x :: xs, y :: ys, h => by
+      simp [V.beqList] at h
+      rw [V.beq_eq x y h.1, V.beqList_eq xs ys h.2]
+  | [], _ :: _, h => by simp [V.beqList] at h
+  | _ :: _, [], h => by simp [V.beqList] at h
+theorem V.beqKvs_eq : ∀ (a b : List (Key × V)), V.beqKvs a b = true → a = b
+  | [], [], _ => rfl
+  | (k, x) :: xs, (l, y) :: ys, h => by
+      simp [V.beqKvs] at h
+      rw [h.1.1, V.beq_eq x y h.1.2, V.beqKvs_eq xs ys h.2]
+  | [], _ :: _, h => by simp [V.beqKvs] at h
+  | _ :: _, [], h => by simp [V.beqKvs] at h
+end
+
+mutual
+theorem V.beq_refl : ∀ (a : V), V.beq a a = true
+  | .num a => by simp [V.beq]
+  | .cand a => by simp [V.beq]
+  | .tie a => by simp [V.beq]
+  | .none => by simp [V.beq]
+  | .list a => by simp [V.beq, V.beqList_refl a]
+  | .dict a => by simp [V.beq, V.beqKvs_refl a]
+theorem V.beqList_refl : ∀ (a : List V), V.beqList a a = true
+  | [] => by simp [V.beqList]
+  | x :: xs => by simp [V.beqList, V.beq_refl x, V.beqList_refl xs]
+theorem V.beqKvs_refl : ∀ (a : List (Key × V)), V.beqKvs a a = true
+  | [] => by simp [V.beqKvs]
+  | (k, x) :: xs => by simp [V.beqKvs, V.beq_refl x, V.beqKvs_refl xs]
+end
+
+instance : DecidableEq V := fun a b =>
+  if h : V.beq a b = true then isTrue (V.beq_eq a b h)
+  else isFalse (fun e => by subst e; exact h (V.beq_refl a))
+
+instance instDecEqExcept {ε α : Type} [DecidableEq ε] [DecidableEq α] : DecidableEq (Except ε α) := fun a b =>
+  match a, b with
+  | .ok x, .ok y => if h : x = y then isTrue (by rw [h]) else isFalse (by intro e; cases e; exact h rfl)
+  | .error x, .error y => if h : x = y then isTrue (by rw [h]) else isFalse (by intro e; cases e; exact h rfl)
+  | .ok _, .error _ => isFalse (by intro e; cases e)
+  | .error _, .ok _ => isFalse (by intro e; cases e)
+
 /-- `P` is how core.py calls the part (strict binding), `P'` is the part called by hand; `s` is what it takes -/
 def Agree (s : Sig) (P P' : Sem) : Prop := ∀ a : Args, P (a.restrict s) = P' a
 
@@ -29,6 +107,38 @@ end Args
 
 @[simp] theorem ok_bind {α β : Type} (x : α) (f : α → Except Err β) : (Except.ok x >>= f) = f x := rfl
 @[simp] theorem error_bind {α β : Type} (e : Err) (f : α → Except Err β) : (Except.error e >>= f) = Except.error e := rfl
+
+theorem filterMapM_ok_mem {α β : Type} {f : α → Except Err (Option β)} :
+    ∀ {l : List α} {r : List β}, l.filterMapM f = .ok r → ∀ y ∈ r, ∃ x ∈ l, f x = .ok (some y)
+  | [], r, h, y, hy => by
+      simp only [List.filterMapM_nil] at h
+      cases h; cases hy
+  | x :: xs, r, h, y, hy => by
+      simp only [List.filterMapM_cons] at h
+      cases hx : f x with
+      | error e => rw [hx] at h; cases h
+      | ok o =>
+        rw [hx] at h
+        simp only [ok_bind] at h
+        cases hr : xs.filterMapM f with
+        | error e => cases o <;> (rw [hr] at h; cases h)
+        | ok r' =>
+          cases o with
+          | none =>
+            rw [hr] at h
+            have : r = r' := by cases h; rfl
+            subst this
+            obtain ⟨z, hz, hfz⟩ := filterMapM_ok_mem hr y hy
+            exact ⟨z, by simp [hz], hfz⟩
+          | some b =>
+            rw [hr] at h
+            have : r = b :: r' := by cases h; rfl
+            subst this
+            simp only [List.mem_cons] at hy
+            rcases hy with hy | hy
+            · subst hy; exact ⟨x, by simp, hx⟩
+            · obtain ⟨z, hz, hfz⟩ := filterMapM_ok_mem hr y hy
+              exact ⟨z, by simp [hz], hfz⟩
 
 theorem Agree.tolerant {s P P'} (h : Agree s P P') (a : Args) : P' (a.restrict s) = P' a := by
   rw [← h, ← h, Args.restrict_restrict]
@@ -61,7 +171,7 @@ theorem agree_preConverted {sP : Sig} {P P' : Sem} (c : V → Except Err V) (hP 
 theorem agree_postConverted {sP : Sig} {P P' : Sem} (c : V → Except Err V) (hP : Agree sP P P') :
     Agree sP (postConvertedImpl P c) (postConvertedLaw P' c) := by
   intro a
-  simp only [postConvertedImpl, postConvertedLaw, hP.byHand, Args.restrict_restrict]
+  simp only [postConvertedImpl, postConvertedLaw, hP.byHand]
 
 /-- Conditioned with truthful dispatch flags (`elimPrev`, `evSeats`, `evPrev`) -/
 theorem agree_conditioned {sE sP : Sig} {E E' P P' : Sem} (depth : Nat)
@@ -242,12 +352,136 @@ theorem agree_tieBreaking {sM sT : Sig} {M M' T T' : Sem} (hM : Agree sM M M') (
     | dict d =>
       by_cases hany : d.any (fun p => keyIsTie p.1) = true
       · simp [hany, tieChoice, hT.byHand, Args.restrict, bind_assoc, replaceDist, addChosen]
+        rfl
       · simp only [Bool.not_eq_true] at hany
         simp [hany, collectDist_noTie d hany]
-        rfl
     | num _ => rfl
     | cand _ => rfl
     | tie _ => rfl
     | none => rfl
+
+/-! ### arbitrary nesting -/
+
+def appMap (f : Ev → Sem) : App Ev → App Sem
+  | .none => .none
+  | .int k => .int k
+  | .dict d => .dict d
+  | .ev ap => .ev (f ap)
+
+theorem eval_byConstituency (e : Ev) (app : App Ev) (pre : Option Ev) :
+    eval (.byConstituency e app pre) =
+      byConstituencyImpl (acceptsPrevGains e) (match pre with | some p => acceptsSeats p | Option.none => false)
+        (eval e) (appMap eval app) (pre.map eval) := by
+  cases app <;> cases pre <;> simp [eval, appMap]
+
+theorem denote_byConstituency (e : Ev) (app : App Ev) (pre : Option Ev) :
+    denote (.byConstituency e app pre) =
+      byConstituencyLaw (denote e) (appMap denote app) (pre.map denote) := by
+  cases app <;> cases pre <;> simp [denote, appMap]
+
+theorem eval_preApportioned (e : Ev) (app : App Ev) :
+    eval (.preApportioned e app) = preApportionedImpl (eval e) (appMap eval app) := by
+  cases app <;> simp [eval, appMap]
+
+theorem denote_preApportioned (e : Ev) (app : App Ev) :
+    denote (.preApportioned e app) = preApportionedLaw (denote e) (appMap denote app) := by
+  cases app <;> simp [denote, appMap]
+
+mutual
+theorem agree_tree : ∀ (t : Ev), WellFormed t = true → Agree (takes t) (eval t) (denote t)
+  | .leaf sig f, _ => by
+      simpa [eval, denote, takes] using agree_leaf sig f
+  | .fixedSeatCount e n, h => by
+      simp only [WellFormed, Bool.and_eq_true] at h
+      simpa [eval, denote, takes] using agree_fixed n (agree_tree e h.1) h.2
+  | .tieBreaking main tb, h => by
+      simp only [WellFormed, Bool.and_eq_true] at h
+      simpa [eval, denote, takes] using agree_tieBreaking (agree_tree main h.1.1) (agree_tree tb h.1.2) h.2
+  | .conditioned elim e depth, h => by
+      simp only [WellFormed, DispatchFaithful, Bool.and_eq_true, beq_iff_eq] at h
+      obtain ⟨⟨⟨hw1, hw2⟩, hf1⟩, hf2, hf3⟩ := h
+      simp only [eval, denote, takes, hf1, hf2, hf3]
+      exact agree_conditioned depth (agree_tree elim hw1) (agree_tree e hw2)
+  | .preConverted c e, h => by
+      simp only [WellFormed] at h
+      simpa [eval, denote, takes] using agree_preConverted c.run (agree_tree e h)
+  | .postConverted e c, h => by
+      simp only [WellFormed] at h
+      simpa [eval, denote, takes] using agree_postConverted c.run (agree_tree e h)
+  | .votingSystem e, h => by
+      simp only [WellFormed] at h
+      simpa [eval, denote, takes] using agree_tree e h
+  | .byConstituency e app pre, h => by
+      unfold WellFormed at h
+      simp only [Bool.and_eq_true, beq_iff_eq] at h
+      obtain ⟨⟨⟨⟨⟨hw, hs⟩, hf⟩, hpm⟩, happ⟩, hpre⟩ := h
+      rw [eval_byConstituency, denote_byConstituency, hf]
+      simp only [takes]
+      refine agree_byConstituency (agree_tree e hw) hs hpm ?_ ?_
+      · cases app with
+        | none => exact .none
+        | int k => exact .int k
+        | dict d => exact .dict d
+        | ev ap =>
+          simp at happ
+          exact .ev (agree_tree ap happ.1) happ.2
+      · cases pre with
+        | none => exact .none _
+        | some p =>
+          simp at hpre
+          simp only [hpre.2, Option.map]
+          exact .some (agree_tree p hpre.1)
+  | .preApportioned e app, h => by
+      unfold WellFormed at h
+      simp only [takesAll, Bool.and_eq_true] at h
+      obtain ⟨⟨hw, ⟨hs, hp⟩, hm⟩, happ⟩ := h
+      rw [eval_preApportioned, denote_preApportioned]
+      simp only [takes]
+      refine agree_preApportioned (agree_tree e hw) hs hp hm ?_
+      cases app with
+      | none => exact .none
+      | int k => exact .int k
+      | dict d => exact .dict d
+      | ev ap =>
+        simp at happ
+        exact .ev (agree_tree ap happ.1) happ.2
+  | .removedApportionment e, h => by
+      simp only [WellFormed, takesAll, Bool.and_eq_true] at h
+      obtain ⟨hw, ⟨hs, hp⟩, hm⟩ := h
+      simpa [eval, denote, takes] using agree_removedApportionment (agree_tree e hw) hs hp hm
+  | .byParty overall alloc, h => by
+      cases alloc with
+      | some al =>
+        simp only [WellFormed, takesAll, Bool.and_eq_true, beq_iff_eq] at h
+        obtain ⟨⟨hwo, hso⟩, ⟨hwa, ⟨hsa, hpa⟩, hma⟩, hfa⟩ := h
+        simp only [eval, denote, takes, hfa]
+        exact agree_byParty (agree_tree overall hwo) (agree_tree al hwa) hso hsa hpa hma
+      | none =>
+        simp only [WellFormed, takesAll, Bool.and_eq_true, beq_iff_eq] at h
+        obtain ⟨⟨hwo, hso⟩, ⟨⟨_, hpo⟩, hmo⟩, hfo⟩ := h
+        simp only [eval, denote, takes, hfo]
+        exact agree_byParty (agree_tree overall hwo) (agree_tree overall hwo) hso hso hpo hmo
+  | .multistage rounds depth, h => by
+      simp only [WellFormed] at h
+      simpa [eval, denote, takes] using agree_multistage (agree_stages rounds true h) depth
+  | .unusedVotes rounds quotas depth, h => by
+      simp only [WellFormed] at h
+      simpa [eval, denote, takes] using agree_unusedVotes (agree_stages rounds false h) quotas depth
+  | .partyList party le conv, h => by
+      simp only [WellFormed, Bool.and_eq_true] at h
+      simpa [eval, denote, takes] using agree_partyList (agree_tree party h.1) h.2 le (conv.map Conv.run)
+theorem agree_stages : ∀ (rs : List Ev) (g : Bool), WellFormedList rs g = true →
+    AgreeStages g (evalList rs) (denoteList rs)
+  | [], _, _ => by simpa [evalList, denoteList] using AgreeStages.nil
+  | e :: es, g, h => by
+      simp only [WellFormedList, Bool.and_eq_true] at h
+      obtain ⟨⟨hw, hg⟩, hrest⟩ := h
+      simp only [evalList, denoteList]
+      refine AgreeStages.cons (agree_tree e hw) ?_ ?_ (agree_stages es g hrest)
+      · cases g <;> simp_all [takesAll]
+      · intro hg'
+        subst hg'
+        simp_all [takesAll]
+end
 
 end VL.C14
